@@ -138,3 +138,163 @@ Proof. reflexivity. Qed.
 Theorem options_opens_nothing rt files path ims rng :
   file_of (serve rt files true path ims rng) = None.
 Proof. reflexivity. Qed.
+
+(* ================= headers of a served file, the fallback branch ================= *)
+Open Scope N_scope.
+
+Lemma last_in {A} (l : list A) d : l <> [] -> In (last l d) l.
+Proof.
+  induction l as [|x l IH]; intro H; [contradiction|].
+  destruct l as [|y l']; [left; reflexivity|]. right. apply IH. discriminate.
+Qed.
+
+Lemma join_last sep (l : list str) : l <> [] -> exists pre, join_chr sep l = pre ++ last l [].
+Proof.
+  induction l as [|x l IH]; intro H; [contradiction|].
+  destruct l as [|y l'].
+  - exists []. reflexivity.
+  - destruct (IH ltac:(discriminate)) as [pre E].
+    exists (x ++ sep :: pre).
+    change (join_chr sep (x :: y :: l')) with (x ++ sep :: join_chr sep (y :: l')).
+    rewrite E. change (last (x :: y :: l') []) with (last (y :: l') []).
+    rewrite <- app_assoc. reflexivity.
+Qed.
+
+(* os.path.basename: a suffix of the path without any '/' *)
+Theorem basename_no_slash p : ~ In SLASH (basename p).
+Proof.
+  unfold basename. eapply split_chr_no_sep. apply last_in. apply split_chr_nonempty.
+Qed.
+
+Theorem basename_suffix p : exists pre, p = pre ++ basename p.
+Proof.
+  unfold basename. destruct (join_last SLASH (split_chr SLASH p) (split_chr_nonempty _ _)) as [pre E].
+  rewrite join_split_chr in E. exists pre. exact E.
+Qed.
+
+Lemma join_snoc sep (l : list str) e : l <> [] -> join_chr sep (l ++ [e]) = join_chr sep l ++ sep :: e.
+Proof.
+  induction l as [|x l IH]; intro H; [contradiction|].
+  destruct l as [|y l'].
+  - reflexivity.
+  - change ((x :: y :: l') ++ [e]) with (x :: (y :: l') ++ [e]).
+    change (join_chr sep (x :: (y :: l') ++ [e])) with (x ++ sep :: join_chr sep ((y :: l') ++ [e])).
+    rewrite IH by discriminate.
+    change (join_chr sep (x :: y :: l')) with (x ++ sep :: join_chr sep (y :: l')).
+    rewrite <- app_assoc. reflexivity.
+Qed.
+
+(* os.path.splitext(p)[1]: empty, or ".e" -- a suffix of the base name with no further dot *)
+Theorem splitext_shape p :
+  splitext_ext p = [] \/
+  exists pre e, splitext_ext p = DOT :: e /\ basename p = pre ++ DOT :: e /\ pre <> [] /\
+                ~ In DOT e /\ ~ In SLASH e.
+Proof.
+  unfold splitext_ext.
+  destruct (rev (split_chr DOT (basename p))) as [|e front] eqn:R; [left; reflexivity|].
+  destruct front as [|f front']; [left; reflexivity|].
+  destruct (existsb nonempty (f :: front')) eqn:NE; [|left; reflexivity].
+  right. exists (join_chr DOT (rev (f :: front'))), e. split; [reflexivity|].
+  assert (SP : split_chr DOT (basename p) = rev (f :: front') ++ [e]).
+  { rewrite <- (rev_involutive (split_chr DOT (basename p))), R. reflexivity. }
+  assert (NR : rev (f :: front') <> []).
+  { intro E. apply (f_equal (@length _)) in E. rewrite rev_length in E. discriminate. }
+  split.
+  - rewrite <- (join_split_chr DOT (basename p)) at 1. rewrite SP. apply join_snoc. exact NR.
+  - split.
+    + (* some component before the last dot is non-empty, so the joined prefix is *)
+      apply existsb_exists in NE as (c & Hc & Nc).
+      intro E. assert (IN : In c (rev (f :: front'))) by (apply in_rev in Hc || apply -> in_rev; exact Hc).
+      pose proof (contains_join DOT c _ IN) as CJ. rewrite E in CJ.
+      destruct c; [discriminate|]. cbn in CJ. discriminate.
+    + assert (IE : In e (split_chr DOT (basename p))) by (rewrite SP; apply in_or_app; right; left; reflexivity).
+      split; [eapply split_chr_no_sep; exact IE|].
+      intro S. apply (basename_no_slash p). eapply split_chr_sub; eassumption.
+Qed.
+
+(* exact-match lookup with a default *)
+Theorem content_type_default types f :
+  types_get types (splitext_ext f) = None -> content_type_of types f = s_octet_stream.
+Proof. unfold content_type_of. intros ->. reflexivity. Qed.
+
+Theorem disposition_iff rt f n :
+  disposition_of rt f = Some n <-> r_downloadable rt = true /\ n = basename f.
+Proof.
+  unfold disposition_of. destruct (r_downloadable rt); split.
+  - intros [= <-]. split; reflexivity.
+  - intros [_ ->]. reflexivity.
+  - discriminate.
+  - intros [E _]. discriminate.
+Qed.
+
+(* the headers are those of the file that is served: of the fallback when it is served *)
+Theorem served_headers_of_file rt types r :
+  served_headers rt types r =
+  match r with
+  | R200 _ _ | R206 _ _ _ _ =>
+    match file_of r with
+    | Some f => Some (content_type_of types f, disposition_of rt f)
+    | None => None
+    end
+  | _ => None
+  end.
+Proof. destruct r; reflexivity. Qed.
+
+(* THE FALLBACK BRANCH.  For a request that passes the sanitiser (candidate fp): the fallback
+   file is the one opened exactly when the candidate is not a regular file and a fallback is
+   configured (and exists); a path the sanitiser rejects is a 404 even with a fallback
+   (rejected_is_404).  The empty remainder ("/static/" and, through match, "/static") passes
+   the sanitiser only with a fallback and its candidate "dir/." is never a regular file. *)
+Theorem fallback_opened_iff rt files fp fb v :
+  r_fallback rt = Some fb ->
+  (opened_file rt files fp = Some (fb, v) /\ fs_get files fp = None <->
+   fs_get files fp = None /\ fs_get files fb = Some v).
+Proof.
+  intro FB. unfold opened_file. rewrite FB. split.
+  - intros [O N]. rewrite N in O. destruct (fs_get files fb) as [w|]; [|discriminate].
+    injection O as <-. split; [exact N | reflexivity].
+  - intros [N E]. rewrite N, E. split; reflexivity.
+Qed.
+
+Theorem no_fallback_configured rt files fp :
+  r_fallback rt = None -> opened_file rt files fp = match fs_get files fp with Some v => Some (fp, v) | None => None end.
+Proof. intro FB. unfold opened_file. rewrite FB. destruct (fs_get files fp); reflexivity. Qed.
+
+Theorem candidate_preferred rt files fp v :
+  fs_get files fp = Some v -> opened_file rt files fp = Some (fp, v).
+Proof. intro E. unfold opened_file. rewrite E. reflexivity. Qed.
+
+(* at the level of responses: a served file is the candidate (which then exists) or the
+   configured fallback (and then the candidate does not exist) *)
+Theorem served_file_is_candidate_or_fallback rt files path ims rng f :
+  file_of (serve rt files false path ims rng) = Some f ->
+  exists fp, sanitize (length (r_prefix rt)) (has_fb rt) (r_dir rt) path = Some fp /\
+    ((f = fp /\ fs_get files fp <> None) \/ (r_fallback rt = Some f /\ fs_get files fp = None)).
+Proof.
+  rewrite serve_unfold. destruct (sanitize _ _ _ _) as [fp|] eqn:S; [|discriminate].
+  intro H. exists fp. split; [reflexivity|].
+  assert (OF : exists v, opened_file rt files fp = Some (f, v)).
+  { destruct (opened_file rt files fp) as [[f0 [sz mt]]|]; [|discriminate].
+    exists (sz, mt). f_equal. f_equal.
+    destruct (match ims with Some t => (mt <=? t)%Z | None => false end); [injection H as <-; reflexivity|].
+    destruct rng; try discriminate; rewrite file_of_resp_of in H; injection H as <-; reflexivity. }
+  destruct OF as [v OF]. unfold opened_file in OF.
+  destruct (fs_get files fp) as [w|] eqn:G.
+  - injection OF as <- <-. left. split; [reflexivity | discriminate].
+  - destruct (r_fallback rt) as [fb|]; [|discriminate].
+    destruct (fs_get files fb); [|discriminate]. injection OF as <- <-. right. split; reflexivity.
+Qed.
+
+(* the empty remainder: accepted by the sanitiser iff a fallback is configured, and its
+   candidate is the directory itself *)
+Theorem empty_remainder rt :
+  sanitize (length (r_prefix rt)) (has_fb rt) (r_dir rt) (r_prefix rt) =
+  if has_fb rt && negb (contains (dir_slash (r_dir rt) ++ dot) dotdot)
+               && startswith (dir_slash (r_dir rt) ++ dot) (r_dir rt)
+  then Some (dir_slash (r_dir rt) ++ dot) else None.
+Proof.
+  unfold sanitize. rewrite skipn_all. cbn [nonempty orb negb].
+  destruct (has_fb rt); [|reflexivity]. cbn.
+  destruct (contains (dir_slash (r_dir rt) ++ dot) dotdot); [reflexivity|].
+  destruct (startswith (dir_slash (r_dir rt) ++ dot) (r_dir rt)); reflexivity.
+Qed.
